@@ -42,6 +42,8 @@ func pillarObs(l *calendar.Lunar) obj {
 		ec.SetSect(2)
 		o["ec2"] = []string{ec.GetYear(), ec.GetMonth(), ec.GetDay(), ec.GetTime()}
 		o["tm"] = []int{l.GetTime().GetGanIndex(), l.GetTime().GetZhiIndex()}
+		// extension (outside C05): the bounds of the two-hour slot as the hour object prints them
+		o["hm"] = [][]int{codepoints(l.GetTime().GetMinHm()), codepoints(l.GetTime().GetMaxHm())}
 	})
 	o["p"] = b2i(p)
 	return o
